@@ -785,3 +785,323 @@ Proof.
   - intros c2 HG2. apply ok_one. eapply G0_use; [exact HG2|]. intros x [<-|[]]. apply (id_of_In _ _ _ Hid1).
   - exists c2. split; [eapply Ext_trans; eassumption | exact HG2].
 Qed.
+
+(* ------------------------------------------------------------------ EPR operations *)
+Lemma drop_last_app : forall (a new : list (nat * nat)) n, length new = n -> drop_last_handles n (a ++ new) = a.
+Proof.
+  intros a new n H. unfold drop_last_handles. rewrite app_length, H.
+  replace (length a + n - n) with (length a + 0) by lia.
+  rewrite firstn_app_2. simpl. apply app_nil_r.
+Qed.
+
+Lemma commit_fields : forall s, active (commit s) = active s /\ next_h (commit s) = next_h s /\ last_new (commit s) = None.
+Proof. intros. unfold commit. simpl. auto. Qed.
+
+Lemma H0_commit : forall s, H0 s -> H0 (commit s).
+Proof. intros s H. exact H. Qed.
+
+(* what the two EPR operations share on generic hardware *)
+Lemma generic_handles : forall k s c n, Good k s c -> nv k = false -> 1 <= n -> length (active s) + n <= budget k ->
+  exists c1 s1 vs new, Ext s c (commit s) c1 /\ G0 k (active s) c1 /\
+    ent_handles k s n = inl (s1, vs) /\ active s1 = active s ++ new /\ map snd new = vs /\ length new = n /\
+    pending s1 = pending (commit s) /\ last_new s1 = None /\ H0 s1 /\ NoDup vs /\
+    (forall v, In v vs -> ~ In v (ids s)) /\ (forall v, In v vs -> v < length (active s) + n).
+Proof.
+  intros k s c n [HH [HR Hlen]] Hnv Hn Hb.
+  destruct (commit_G0 _ _ _ HR) as [c1 [HE HG]].
+  destruct (fresh_handles_spec n (commit s)) as [s1 [vs [new [E [Ha [Hv [Hl [_ [Hp [Hln [HH1 [Hnd [Hdis Hbd]]]]]]]]]]]]].
+  exists c1, s1, vs, new. unfold ent_handles. rewrite Hnv.
+  split; [exact HE|]. split; [exact HG|]. split; [exact E|]. split; [exact Ha|]. split; [exact Hv|].
+  split; [exact Hl|]. split; [exact Hp|]. split; [exact Hln|]. split; [apply HH1; exact HH|].
+  split; [exact Hnd|]. split; [exact Hdis | exact Hbd].
+Qed.
+
+Lemma step_keep : forall k s c n r, Good k s c -> 1 <= n -> length (active s) + n <= budget k ->
+  StepOK k s c (EprKeep n r).
+Proof.
+  intros k s c n r HGood Hn Hb. pose proof (budget_le k) as Hbl. unfold StepOK. simpl.
+  destruct (n =? 0) eqn:En0; [apply Nat.eqb_eq in En0; lia|].
+  destruct (max_q k <? n) eqn:Enq; [apply Nat.ltb_lt in Enq; lia|].
+  destruct (nv k) eqn:Hnv.
+  - (* NV *)
+    unfold ent_handles, single_comm. rewrite Hnv. simpl.
+    destruct (free_up0_ok k s c HGood (Good_room _ _ _ HGood Hnv)) as [s1 [c1 [E1 [HE1 [HG1 [H01 [Hh1 [Hn1 _]]]]]]]].
+    rewrite E1. destruct HG1 as [HH1 [HR1 Hlen1]].
+    destruct (commit_G0 _ _ _ HR1) as [c2 [HE2 HG2]].
+    destruct (nv_handles_spec k n (commit s1) c2 eq_refl HG2 HH1 H01 Hn) as [Hrej Hok]; [lia|].
+    destruct (nv_handles (commit s1) n) as [[s2 vs]|e] eqn:E2.
+    + split; [intros e He; discriminate|]. intros s' He. inversion He; subst. clear He.
+      destruct (Hok s2 vs eq_refl) as [c3 [HE3 [HG3 [HH3 [HL3 [Hne [Hin [[new [Hnew [Hlen _]]] _]]]]]]]].
+      destruct (move_loop_ok k (active s2) vs c3 HG3 Hne Hin) as [c4 [O4 HG4]].
+      exists c4. split.
+      * eapply Ext_trans; [exact HE1|]. eapply Ext_trans; [exact HE2|]. eapply Ext_trans; [exact HE3|].
+        exists (move_loop vs). split; [apply emit_None; exact HL3 | exact O4].
+      * split; [exact HH3|]. split; [exact HG4|]. simpl. rewrite Hnew, app_length, Hlen. simpl.
+        assert (Hl : length (active s1) = length (active s)).
+        { rewrite <- (map_length fst (active s1)), <- (map_length fst (active s)). f_equal. exact Hh1. }
+        lia.
+    + split; [|intros s' He; discriminate]. intros e0 He. inversion He; subst. apply Hrej. reflexivity.
+  - (* generic *)
+    destruct (generic_handles k s c n HGood Hnv Hn Hb)
+      as [c1 [s1 [vs [new [HE [HG [E [Ha [Hv [Hl [Hp [Hln [HH1 [Hnd [Hdis Hbd]]]]]]]]]]]]]]].
+    rewrite E. split; [intros e He; discriminate|]. intros s' He. inversion He; subst. clear He.
+    assert (Hevs : (if single_comm k then move_loop (map snd new) else map EEpr (map snd new)) = map EEpr (map snd new)).
+    { unfold single_comm. rewrite Hnv. simpl. destruct (max_q k =? 1) eqn:E1; [|reflexivity].
+      apply Nat.eqb_eq in E1. unfold budget in Hb. rewrite Hnv in Hb.
+      destruct new as [|[h v] [|p new']]; simpl in *; try lia.
+      assert (v < length (active s) + 1) by (apply Hbd; left; reflexivity).
+      replace v with 0 by lia. reflexivity. }
+    rewrite Hevs.
+    destruct (G0_epr_list k new (active s) c1 HG) as [c2 [O2 HG2]].
+    + exact Hnd.
+    + exact Hdis.
+    + intros v Hv. apply Hbd in Hv. lia.
+    + exists c2. split.
+      * eapply Ext_trans; [exact HE|]. exists (map EEpr (map snd new)). split; [|exact O2].
+        rewrite emit_None by exact Hln. rewrite Hp. reflexivity.
+      * split; [exact HH1|]. split; [unfold Rel; simpl; rewrite Ha; exact HG2|].
+        simpl. rewrite Ha, app_length. lia.
+Qed.
+
+Lemma step_ctx : forall k s c n r, Good k s c -> 1 <= n -> length (active s) + n <= budget k ->
+  hits_nv_context k (EprContext n r) = false -> StepOK k s c (EprContext n r).
+Proof.
+  intros k s c n r HGood Hn Hb Hf. pose proof (budget_le k) as Hbl. unfold StepOK. simpl.
+  destruct (n =? 0) eqn:En0; [apply Nat.eqb_eq in En0; lia|].
+  destruct (max_q k <? n) eqn:Enq; [apply Nat.ltb_lt in Enq; lia|].
+  destruct (nv k) eqn:Hnv.
+  - (* NV: a single pair *)
+    unfold hits_nv_context in Hf. rewrite Hnv in Hf. change (true && (2 <=? n)) with (2 <=? n) in Hf.
+    apply Nat.leb_gt in Hf.
+    assert (n = 1) by lia. subst n.
+    unfold ent_handles. rewrite Hnv.
+    destruct (free_up0_ok k s c HGood (Good_room _ _ _ HGood Hnv)) as [s1 [c1 [E1 [HE1 [HG1 [H01 [Hh1 [Hn1 _]]]]]]]].
+    rewrite E1. simpl. destruct HG1 as [HH1 [HR1 Hlen1]].
+    destruct (commit_G0 _ _ _ HR1) as [c2 [HE2 HG2]].
+    split; [intros e He; discriminate|]. intros s' He. inversion He; subst. clear He.
+    exists c2. split.
+    + eapply Ext_trans; [exact HE1|]. eapply Ext_trans; [exact HE2|].
+      exists (ctx_loop [0]). split.
+      * simpl. unfold add_handle, commit, all_pending. simpl. rewrite app_nil_r. reflexivity.
+      * apply ctx_loop_ok. intros v [<-|[]]. destruct HG2 as [Hcap _ _ Hs _]. split.
+        -- intros H. apply H01. apply Hs. exact H.
+        -- rewrite Hcap. lia.
+    + split; [|split].
+      * unfold H0, handles in *. simpl. rewrite (drop_last_app (active s1) [(next_h s1, 0)] 1 eq_refl).
+        rewrite Hh1 in HH1. destruct HH1 as [A B]. rewrite Hn1 in B. destruct HGood as [[A' B'] _].
+        unfold handles in Hh1. rewrite Hh1. split; assumption.
+      * unfold Rel. simpl. rewrite (drop_last_app (active s1) [(next_h s1, 0)] 1 eq_refl). exact HG2.
+      * simpl. rewrite (drop_last_app (active s1) [(next_h s1, 0)] 1 eq_refl). exact Hlen1.
+  - destruct (generic_handles k s c n HGood Hnv Hn Hb)
+      as [c1 [s1 [vs [new [HE [HG [E [Ha [Hv [Hl [Hp [Hln [HH1 [Hnd [Hdis Hbd]]]]]]]]]]]]]]].
+    rewrite E. split; [intros e He; discriminate|]. intros s' He. inversion He; subst. clear He.
+    exists c1. split.
+    + eapply Ext_trans; [exact HE|]. exists (ctx_loop (map snd new)). split.
+      * simpl. unfold all_pending at 1. rewrite Hln. simpl. rewrite app_nil_r, Hp. reflexivity.
+      * apply ctx_loop_ok. intros v Hv. destruct HG as [Hcap _ _ Hs _]. split.
+        -- intros H. apply (Hdis v Hv). apply Hs. exact H.
+        -- rewrite Hcap. apply Hbd in Hv. lia.
+    + destruct HGood as [HH [_ Hlen]]. split; [|split].
+      * unfold H0, handles. simpl. rewrite Ha, (drop_last_app _ _ _ eq_refl). exact HH.
+      * unfold Rel. simpl. rewrite Ha, (drop_last_app _ _ _ eq_refl). exact HG.
+      * simpl. rewrite Ha, (drop_last_app _ _ _ eq_refl). exact Hlen.
+Qed.
+
+(* ------------------------------------------------------------------ any program *)
+Lemma step_ok : forall k s c o, Good k s c -> in_budget k s o = true -> outside_findings k s o = true ->
+  o <> Flush -> StepOK k s c o.
+Proof.
+  intros k s c o HG Hb Hf Hne. unfold outside_findings in Hf. apply andb_true_iff in Hf.
+  destruct Hf as [Hd Hc]. apply negb_true_iff in Hd. apply negb_true_iff in Hc.
+  destruct o; cbn [in_budget] in Hb.
+  - apply step_new; [exact HG | apply Nat.leb_le; exact Hb].
+  - apply step_gate1; assumption.
+  - apply andb_true_iff in Hb. destruct Hb as [Hb _]. apply andb_true_iff in Hb. destruct Hb as [H1 H2].
+    apply step_gate2; assumption.
+  - apply step_mi; assumption.
+  - apply step_md; assumption.
+  - apply step_free; assumption.
+  - apply andb_true_iff in Hb. destruct Hb as [H1 H2]. apply Nat.leb_le in H1, H2. apply step_keep; assumption.
+  - apply andb_true_iff in Hb. destruct Hb as [H1 H2]. apply Nat.leb_le in H1, H2. apply step_ctx; assumption.
+  - congruence.
+Qed.
+
+Definition Agree (k : cfg) (s : sdk) (c : ctrl) : Prop :=
+  Permutation (ids s) (allocated c) /\ NoDup (ids s) /\ length (ids s) <= budget k.
+
+(* invariant between flushes: the pending commands will run without fault and
+   lead to a controller state that agrees with the SDK's bookkeeping *)
+Definition Inv (k : cfg) (s : sdk) (c : ctrl) : Prop := exists c0, ok c (pending s) c0 /\ Good k s c0.
+
+Lemma G0_Agree : forall k s c, G0 k (active s) c -> length (active s) <= budget k -> Agree k s c.
+Proof.
+  intros k s c [Hcap Hndi Hnda Hs Hlt] Hlen. unfold Agree, ids. split; [|split; [exact Hndi|rewrite map_length; exact Hlen]].
+  apply NoDup_Permutation; [exact Hndi | unfold allocated; apply NoDup_filter; apply seq_NoDup|].
+  intros x. unfold allocated. rewrite filter_In, in_seq, mem_In. specialize (Hs x). split.
+  - intros H. split; [|apply Hs; exact H]. rewrite Hcap. specialize (Hlt x H). lia.
+  - intros [_ H]. apply Hs. exact H.
+Qed.
+
+Lemma allocated_nil : forall n, allocated (mkCtrl [] n) = [].
+Proof.
+  intros n. unfold allocated. simpl. induction (seq 0 n) as [|x r IH]; [reflexivity | simpl; exact IH].
+Qed.
+
+Theorem agree_init : forall k, Agree k init_sdk (init_ctrl k) /\ Inv k init_sdk (init_ctrl k).
+Proof.
+  intros k. assert (HG : G0 k [] (init_ctrl k)).
+  { constructor; simpl; [reflexivity | constructor | constructor | intros v; simpl; tauto | intros v []]. }
+  split.
+  - apply G0_Agree; [exact HG | simpl; lia].
+  - exists (init_ctrl k). split; [apply ok_nil|]. split; [|split; [exact HG | simpl; lia]].
+    split; [constructor | intros h []].
+Qed.
+
+Lemma flush_ok : forall k s c, Inv k s c ->
+  exists c', exec_events c (all_pending s) = (c', all_pending s, None) /\ Agree k s c' /\ Inv k (after_flush s) c'.
+Proof.
+  intros k s c [c0 [O0 [HH [HR Hlen]]]].
+  destruct (commit_G0 _ _ _ HR) as [c1 [[evs [Hp O1]] HG]].
+  exists c1. split; [|split].
+  - unfold commit in Hp. simpl in Hp. unfold all_pending in Hp. apply app_inv_head in Hp. subst evs.
+    unfold all_pending. eapply ok_app; eassumption.
+  - apply G0_Agree; assumption.
+  - exists c1. split; [apply ok_nil|]. split; [exact HH|]. split; [exact HG | exact Hlen].
+Qed.
+
+Theorem agree_step : forall k s c o, Inv k s c -> in_budget k s o = true -> outside_findings k s o = true ->
+  match o with
+  | Flush => exists c', exec_events c (all_pending s) = (c', all_pending s, None) /\
+                        Agree k s c' /\ Inv k (after_flush s) c'
+  | _ => (forall e, sdk_step k s o = inr e -> e = ErrReject) /\
+         (forall s', sdk_step k s o = inl s' -> Inv k s' c /\ NoDup (ids s') /\ length (ids s') <= budget k)
+  end.
+Proof.
+  intros k s c o HI Hb Hf.
+  assert (Hnf : o <> Flush ->
+     (forall e, sdk_step k s o = inr e -> e = ErrReject) /\
+     (forall s', sdk_step k s o = inl s' -> Inv k s' c /\ NoDup (ids s') /\ length (ids s') <= budget k)).
+  { intros Hne. destruct HI as [c0 [O0 HG]]. destruct (step_ok k s c0 o HG Hb Hf Hne) as [He Hs].
+    split; [exact He|]. intros s' E. destruct (Hs s' E) as [c' [[evs [Hp O1]] HG']].
+    split; [|split].
+    - exists c'. split; [rewrite Hp; eapply ok_app; eassumption | exact HG'].
+    - destruct HG' as [_ [HR _]]. eapply Rel_ndi. exact HR.
+    - destruct HG' as [_ [_ Hl]]. unfold ids. rewrite map_length. exact Hl. }
+  destruct o; try (apply Hnf; discriminate). apply flush_ok. exact HI.
+Qed.
+
+Definition good_obs (k : cfg) (o : obs) : Prop :=
+  match o with
+  | OStep i => NoDup i /\ length i <= budget k
+  | OFlush i _ a None => Permutation i a /\ NoDup i /\ length i <= budget k
+  | OFlush _ _ _ (Some _) => False
+  | OReject => True
+  | OModelErr => False
+  end.
+
+Lemma run_nonflush : forall k s c o r, o <> Flush ->
+  run k s c (o :: r) = match sdk_step k s o with
+                       | inl s' => OStep (ids s') :: run k s' c r
+                       | inr ErrReject => [OReject]
+                       | inr _ => [OModelErr]
+                       end.
+Proof. intros k s c o r H. destruct o; try reflexivity. congruence. Qed.
+
+Lemma always_nonflush : forall P k s o r, o <> Flush ->
+  always P k s (o :: r) = P k s o && match sdk_step k s o with inl s' => always P k s' r | inr _ => true end.
+Proof. intros P k s o r H. destruct o; try reflexivity. congruence. Qed.
+
+Lemma op_eq_flush : forall o : op, {o = Flush} + {o <> Flush}.
+Proof. intros o. destruct o; try (right; discriminate). left. reflexivity. Qed.
+
+Theorem run_good : forall k ops s c, Inv k s c ->
+  always in_budget k s ops = true -> always outside_findings k s ops = true ->
+  Forall (good_obs k) (run k s c ops).
+Proof.
+  intros k ops. induction ops as [|o r IH]; intros s c HI Hb Hf; [constructor|].
+  destruct (op_eq_flush o) as [->|Hne].
+  - simpl in Hb, Hf. destruct (flush_ok k s c HI) as [c' [E [[HP [Hnd Hl]] HI']]].
+    simpl. rewrite E. constructor.
+    + simpl. auto.
+    + apply IH; [exact HI' | exact Hb | exact Hf].
+  - rewrite always_nonflush in Hb, Hf by exact Hne.
+    apply andb_true_iff in Hb. destruct Hb as [Hb1 Hb2]. apply andb_true_iff in Hf. destruct Hf as [Hf1 Hf2].
+    pose proof (agree_step k s c o HI Hb1 Hf1) as HS.
+    assert (HS' : (forall e, sdk_step k s o = inr e -> e = ErrReject) /\
+       (forall s', sdk_step k s o = inl s' -> Inv k s' c /\ NoDup (ids s') /\ length (ids s') <= budget k)).
+    { destruct o; try exact HS. congruence. }
+    clear HS. destruct HS' as [He Hs]. rewrite run_nonflush by exact Hne.
+    destruct (sdk_step k s o) as [s'|e] eqn:E.
+    + destruct (Hs s' eq_refl) as [HI' [Hnd Hl]]. constructor; [simpl; auto|].
+      apply IH; assumption.
+    + rewrite (He e eq_refl). constructor; [exact I | constructor].
+Qed.
+
+(* ------------------------------------------------------------------ the statements of C09 *)
+Theorem agree_reachable : forall k ops, within_budget k ops -> avoids_findings k ops ->
+  Forall (good_obs k) (run0 k ops).
+Proof.
+  intros k ops Hb Hf. unfold run0. apply run_good; [apply agree_init | exact Hb | exact Hf].
+Qed.
+
+Definition is_fault (o : obs) : Prop :=
+  match o with
+  | OFlush _ _ _ (Some _) => True
+  | OModelErr => True
+  | _ => False
+  end.
+
+Theorem no_alloc_fault : forall k ops, within_budget k ops -> avoids_findings k ops ->
+  forall o, In o (run0 k ops) -> ~ is_fault o.
+Proof.
+  intros k ops Hb Hf o Hin Hflt. pose proof (agree_reachable k ops Hb Hf) as HF.
+  rewrite Forall_forall in HF. specialize (HF o Hin). destruct o as [i|i t a [f|]| |]; simpl in *; contradiction.
+Qed.
+
+(* a handle that was measured destructively or freed gives its ID back: the ID is
+   unused afterwards and the next new_qubit_id is the lowest unused one, hence at
+   most that ID (exactly that ID when every lower ID is in use) *)
+Theorem ids_reused : forall k s c h v o s', Good k s c -> id_of h (active s) = Some v ->
+  o = Free h \/ o = MeasureDestructive h -> sdk_step k s o = inl s' ->
+  ~ In v (ids s') /\ exists w, new_id (ids s') = Some w /\ w <= v /\ ((forall u, u < v -> In u (ids s')) -> w = v).
+Proof.
+  intros k s c h v o s' HG Hid Ho E.
+  assert (Hnot : ~ In v (ids s')).
+  { destruct Ho as [-> | ->]; simpl in E; rewrite Hid in E.
+    - inversion E; subst. clear E. unfold ids. simpl.
+      destruct HG as [_ [HR _]]. pose proof (Rel_ndi _ _ _ HR) as Hnd. unfold ids in Hnd.
+      destruct (id_of_split _ _ _ Hid) as [a1 [a2 [Ha Hd]]]. rewrite Hd. rewrite Ha, map_app in Hnd. simpl in Hnd.
+      rewrite map_app. apply (NoDup_remove_2 _ _ _ Hnd).
+    - destruct (pre_measure_ok k s c h v HG Hid) as [s1 [c1 [E1 [_ [HG1 Hid1]]]]]. rewrite E1 in E.
+      inversion E; subst. clear E. unfold ids. simpl.
+      destruct HG1 as [_ [HR _]]. pose proof (Rel_ndi _ _ _ HR) as Hnd. unfold ids in Hnd.
+      destruct (id_of_split _ _ _ Hid1) as [a1 [a2 [Ha Hd]]]. rewrite Hd. rewrite Ha, map_app in Hnd. simpl in Hnd.
+      rewrite map_app. apply (NoDup_remove_2 _ _ _ Hnd). }
+  split; [exact Hnot|].
+  destruct (new_id_spec (ids s')) as [w [Ew [Hw [Hbelow _]]]]. exists w. split; [exact Ew|].
+  assert (Hle : w <= v).
+  { destruct (le_lt_dec w v) as [H|H]; [exact H|]. exfalso. apply Hnot. apply Hbelow. exact H. }
+  split; [exact Hle|]. intros Hall. destruct (Nat.eq_dec w v) as [H|H]; [exact H|].
+  exfalso. apply Hw. apply Hall. lia.
+Qed.
+
+(* NV: before a measurement of a qubit that is not at ID 0, and before every EPR
+   operation, the qubit occupying ID 0 is moved to an unused ID; no other handle
+   changes its ID and the bookkeeping stays consistent *)
+Theorem nv_relocation_frees_id0 : forall k s c, Good k s c -> nv k = true ->
+  exists s' c', free_up0 s = inl s' /\ Ext s c s' c' /\ Good k s' c' /\ ~ In 0 (ids s') /\
+    handles s' = handles s /\
+    (forall h v, id_of h (active s) = Some v -> v <> 0 -> id_of h (active s') = Some v).
+Proof.
+  intros k s c HG Hnv.
+  destruct (free_up0_ok k s c HG (Good_room _ _ _ HG Hnv)) as [s' [c' [E [HE [HG' [H0' [Hh [_ [_ Hid]]]]]]]]].
+  exists s', c'. split; [exact E|]. split; [exact HE|]. split; [exact HG'|]. split; [exact H0'|]. split; [exact Hh | exact Hid].
+Qed.
+
+Theorem no_alloc_fault_b : forall k ops, within_budget k ops -> avoids_findings k ops ->
+  has_fault (run0 k ops) = false.
+Proof.
+  intros k ops Hb Hf. unfold has_fault. destruct (existsb is_faultb (run0 k ops)) eqn:E; [|reflexivity].
+  exfalso. apply existsb_exists in E. destruct E as [o [Hin Ho]].
+  apply (no_alloc_fault k ops Hb Hf o Hin). destruct o as [i|i t a [f|]| |]; simpl in *; try discriminate; exact I.
+Qed.
